@@ -1,4 +1,5 @@
 import NibabelModel.Model.C03
+import NibabelModel.Model.C03_Hist
 import Driver.Util
 /-! Line-protocol driver for C03: `C03 <op> <args...>` -> one observable line. -/
 namespace Nb.Drv.C03
@@ -48,7 +49,7 @@ def showParams (p : Params Int) : String :=
   showList p.shape ++ " " ++ toString p.isz ++ " " ++ toString p.off ++ " " ++ toString p.slope ++ " " ++
     toString p.inter
 
-def handle : List String → String
+def handleBase : List String → String
   -- generic ArrayProxy: raw element numbers of proxy[idx]
   | ["px", ord, thr, isz, off, shape, idx] =>
       match parseOrder? ord, thr.toNat?, isz.toNat?, off.toNat?, parseNatList? shape, parseIdx? idx with
@@ -160,6 +161,45 @@ def handle : List String → String
           showRes (w.read (fun (x : Int) _ _ => x) id (thresholdHeuristic thr) idx)
       | _, _, _, _, _, _, _ => "bad-op"
   | _ => "bad-op"
+
+/-- split a token list at the separator token `@` -/
+def splitSteps : List String → List (List String)
+  | [] => [[]]
+  | t :: rest =>
+      match splitSteps rest with
+      | [] => [[t]]
+      | g :: gs => if t = "@" then [] :: g :: gs else (t :: g) :: gs
+
+/-- one step of a history: `a` = np.asarray(proxy), `g <idx>` = proxy[idx], `m <k>` = in-place edit of the array
+    the k-th read returned (the driver's results are printed lines; an edit appends a mark) -/
+def parseStep? : List String → Option (HStep String String)
+  | ["a"] => some .arr
+  | ["g", idx] => some (.get idx)
+  | ["m", k] => k.toNat?.map (fun k => .edit k (· ++ "*"))
+  | _ => none
+
+/-- history on ONE proxy: `hist <op and arguments of the proxy, without the index> @ step @ step …`.
+    Printed: what every read returned, in order, then per read `k` (object still holds what was returned), `c`
+    (changed behind the caller's back) or `-` (the caller edited it). -/
+def handle : List String → String
+  | "hist" :: rest =>
+      match splitSteps rest with
+      | pre :: steps =>
+          if pre = [] ∨ pre.head? = some "hist" then "bad-op" else
+          match steps.mapM parseStep? with
+          | none => "bad-op"
+          | some ss =>
+              let arr := if pre.head? = some "ecatr" then handleBase ("ecatrarr" :: pre.drop 1)
+                         else handleBase (pre ++ ["-"])
+              let p : ProxyFns String String := ⟨fun idx => handleBase (pre ++ [idx]), arr⟩
+              let st := runHist p ss
+              if st.snaps.any (· = "bad-op") then "bad-op" else
+              let flags := (List.range st.snaps.length).map (fun i =>
+                if ss.any (HStep.isMutOf i) then "-"
+                else if (st.refs[i]?.bind (fun c => st.cells[c]?)) = st.snaps[i]? then "k" else "c")
+              "hist " ++ " | ".intercalate st.snaps ++ " || " ++ "".intercalate flags
+      | [] => "bad-op"
+  | toks => handleBase toks
 
 end Nb.Drv.C03
 
